@@ -21,7 +21,8 @@ def unify(s, ns_map):
 
 
 class Canon:
-    def __init__(self, ns_map=(("vpsc", "NS"), ("Avoid", "NS")), alias=None, drop_calls=()):
+    def __init__(self, ns_map=(("vpsc", "NS"), ("Avoid", "NS")), alias=None, drop_calls=(), keep_names=False):
+        self.keep_names = keep_names
         self.ns_map = ns_map
         self.alias = alias or {}
         self.drop_calls = set(drop_calls)
@@ -46,12 +47,12 @@ class Canon:
         if n.get("mac") in DROP_MACROS:
             return None
         if k == "VarDecl":
-            nm = self.local(n["did"])
+            nm = self.local(n["did"]) if not self.keep_names else str(n.get("name"))
             init = self.form(n.get("init")) if n.get("init") is not None else "_"
             return "decl(%s:%s=%s)" % (nm, self.u(n.get("t", "")), init)
         if k == "DeclRefExpr":
             if n.get("rk") in ("Var", "ParmVar") and "::" not in str(n.get("ref")):
-                return self.local(n["did"])
+                return self.local(n["did"]) if not self.keep_names else str(n.get("ref"))
             return self.u(str(n.get("ref")))
         parts = [k]
         for a in ("op", "v", "arrow", "postfix", "arr", "val", "name"):
